@@ -11,6 +11,13 @@ class Flow:
         self.cookie = None
         self.ack = 0
 
+    @classmethod
+    def fresh(cls, ctx, endp, dp=None, **kw):
+        """A flow on random ports whose tuple has not been used since the last table reset."""
+        from . import gen
+        dp = gen.rnd_port(ctx.rng) if dp is None else dp
+        return cls(ctx, endp, ctx.fresh_flow(endp, gen.rnd_port(ctx.rng), dp), dp, **kw)
+
     def syn_frame(self, flags=SYN, seq=None, payload=b""):
         return self.e.tcp(self.sp, self.dp, self.isn if seq is None else seq, 0, flags, payload)
 
